@@ -21,7 +21,7 @@ PROPS = {
     "C01": {"scenarios": ["roundtrip.uvl", "roundtrip.uvl", "roundtrip.uvl", "roundtrip.mixed"]},
     "C02": {"scenarios": ["roundtrip.json", "roundtrip.fide", "roundtrip.glencoe",
                           "roundtrip.afm", "roundtrip.uvl", "third-party", "uvl-peer",
-                          "roundtrip.mixed"]},
+                          "roundtrip.mixed", "serialise"]},
     "C04": {"scenarios": ["uvl-peer", "uvl-peer", "roundtrip.uvl"]},
     "C05": {"scenarios": ["roundtrip.json", "roundtrip.json", "roundtrip.json",
                           "roundtrip.mixed"]},
